@@ -84,6 +84,9 @@ class TeeSys:
                 sys_._pending_close += 1
 
         class Lock:
+            def __len__(self):      # a lock that reports its waiters: no waiters, so it is falsy when handed over
+                return 0
+
             async def __aenter__(self):
                 c = sys_.current
                 while sys_.holder:
